@@ -170,6 +170,35 @@ def _gen_http_headers(headers):
     return retval
 
 
+class _ResponseBody(object):
+    """The iterable that is handed to the WSGI server. It calls ``finalize``
+    exactly once: when the body is exhausted, when producing it fails or when
+    the server calls ``close()`` (which PEP 3333 requires it to do) -- whichever
+    comes first, but never before the body was handed over."""
+
+    def __init__(self, body, finalize):
+        self._body = iter(body)
+        self._finalize = finalize
+
+    def __iter__(self):
+        return self
+
+    def __next__(self):
+        try:
+            return next(self._body)
+
+        except Exception:  # this includes StopIteration
+            self.close()
+            raise
+
+    next = __next__
+
+    def close(self):
+        finalize, self._finalize = self._finalize, None
+        if finalize is not None:
+            finalize()
+
+
 class WsgiTransportContext(HttpTransportContext):
     """The class that is used in the transport attribute of the
     :class:`WsgiMethodContext` class."""
@@ -328,6 +357,10 @@ class WsgiApplication(HttpBase):
     def handle_wsdl_request(self, req_env, start_response, url):
         ctx = WsgiMethodContext(self, req_env, 'text/xml; charset=utf-8')
 
+        return _ResponseBody(self.__wsdl_response(ctx, start_response, url),
+                                                                      ctx.close)
+
+    def __wsdl_response(self, ctx, start_response, url):
         if self.doc.wsdl11 is None:
             start_response(HTTP_404,
                                   _gen_http_headers(ctx.transport.resp_headers))
@@ -369,11 +402,7 @@ class WsgiApplication(HttpBase):
                                                     str(len(ctx.transport.wsdl))
         start_response(HTTP_200, _gen_http_headers(ctx.transport.resp_headers))
 
-        retval = ctx.transport.wsdl
-
-        ctx.close()
-
-        return [retval]
+        return [ctx.transport.wsdl]
 
     def handle_error(self, p_ctx, others, error, start_response):
         """Serialize errors to an iterable of strings and return them.
@@ -406,7 +435,8 @@ class WsgiApplication(HttpBase):
             # Report but ignore any exceptions from auxiliary methods.
             logger.exception(e)
 
-        return chain(p_ctx.out_string, self.__finalize(p_ctx))
+        return _ResponseBody(p_ctx.out_string,
+                                           lambda: self.__finalize(p_ctx))
 
     def handle_rpc(self, req_env, start_response):
         initial_ctx = WsgiMethodContext(self, req_env,
@@ -504,7 +534,8 @@ class WsgiApplication(HttpBase):
         start_response(p_ctx.transport.resp_code,
                                 _gen_http_headers(p_ctx.transport.resp_headers))
 
-        retval = chain(p_ctx.out_string, self.__finalize(p_ctx))
+        retval = _ResponseBody(p_ctx.out_string,
+                                           lambda: self.__finalize(p_ctx))
 
         try:
             process_contexts(self, others, p_ctx, error=None)
@@ -517,8 +548,6 @@ class WsgiApplication(HttpBase):
     def __finalize(self, p_ctx):
         p_ctx.close()
         self.event_manager.fire_event('wsgi_close', p_ctx)
-
-        return ()
 
     def __reconstruct_wsgi_request(self, http_env):
         """Reconstruct http payload using information in the http header."""
